@@ -727,8 +727,10 @@ class Irving:
       # When we substitute mr with valuation_profile_1, we have that
       # the former is BETTER than the latter by k.
       # Hence, the sign of the difference is flipped.
-      ans += valuation_profile_1[rotation[i][0], rotation[i][1]] - valuation_profile_1[rotation[i][0], rotation[(i + 1) % r][1]]
-      ans += valuation_profile_2[rotation[i][1], rotation[i][0]] - valuation_profile_2[rotation[i][1], rotation[(i - 1) % r][0]]
+      # The entries are converted to Python integers first: arithmetic on the profile's own (possibly narrow or unsigned)
+      # integer dtype wraps around.
+      ans += int(valuation_profile_1[rotation[i][0], rotation[i][1]]) - int(valuation_profile_1[rotation[i][0], rotation[(i + 1) % r][1]])
+      ans += int(valuation_profile_2[rotation[i][1], rotation[i][0]]) - int(valuation_profile_2[rotation[i][1], rotation[(i - 1) % r][0]])
     ans *= -1
     return ans
 
@@ -797,5 +799,5 @@ class Irving:
     """
     ans = 0
     for m, w in stable_matching:
-      ans += valuation_profile_1[m, w] + valuation_profile_2[w, m]
+      ans += int(valuation_profile_1[m, w]) + int(valuation_profile_2[w, m])
     return ans
